@@ -44,7 +44,7 @@ pub fn check(tier: Tier) -> Check {
         also_rel: false,
         property: "C01",
         level: "exploration",
-        rule: "presence subsets of every optional field of ConnectOpts (quick: all subsets without a will, all will-only subsets against empty/full backgrounds, all subsets of size <=3 and >=n-3; thorough: all 2^14 x (1 + 2^9)), AuthOpts, PublishOpts, SubscribeOpts/SubscriptionOpts (all 36 option bytes per filter, 0..n filters), UnsubscribeOpts, DisconnectOpts (all 29 reasons); boundary values per field (lengths 0,1,127,128,16383,16384,65535, multi-byte UTF-8, integer extremes) against empty and full backgrounds; sweeps making property length and remaining length take every value across the 1/2/3(/4)-byte variable byte integer switches; a five-request session under every write script with <= K deviations (accept 1 byte / half / Pending) and the uniform 1-byte and Pending-first scripts. Every case is encoded by the library, decoded by the independent strict decoder and compared field by field; distinct_nontrivial = distinct cases in which a packet reached the wire".into(),
+        rule: "presence subsets of every optional field of ConnectOpts (quick: all subsets without a will, all will-only subsets against empty/full backgrounds, all subsets of size <=3 and >=n-3; thorough: all 2^14 x (1 + 2^9)), AuthOpts, PublishOpts, SubscribeOpts/SubscriptionOpts (all 36 option bytes per filter, 0..n filters), UnsubscribeOpts, DisconnectOpts (all 29 reasons); boundary values per field (lengths 0,1,127,128,16383,16384,65535, multi-byte UTF-8, integer extremes) against empty and full backgrounds; sweeps making property length and remaining length take every value across the 1/2/3(/4)-byte variable byte integer switches; a five-request session under every write script with <= K deviations (accept 1 byte / half / Pending) and the uniform 1-byte and Pending-first scripts. Every case is encoded by the library, decoded by the independent strict decoder and compared field by field; distinct_nontrivial = distinct cases in which a packet reached the wire; re-sent packets of a resumed session (C01/resume: the C17 history machine to depth 5, publishes with every option, the resume run under every write script with <= 2 deviations over a write half that gathers vectored writes); publish topics absent / empty (alias-only form) / present".into(),
         assumptions: vec![
             "values MQTT 5 can represent; a will is absent or has topic and payload; will-only options only with a will".into(),
             "AuthOpts::reason_string cannot be used through the public API (it returns ()), so AUTH reason strings are not enumerated".into(),
